@@ -15,7 +15,7 @@ import (
 
 // Ref is a symbolic reference resolved against the model when the step is issued.
 type Ref struct {
-	K string `json:"k,omitempty"` // own | other | any | gone | unknown | zero | foreign | lit ; participants: member | self | stranger
+	K string `json:"k,omitempty"` // own | other | any | of | gone | unknown | zero | foreign | lit ; participants: member | self | stranger
 	I int    `json:"i,omitempty"`
 }
 
@@ -98,6 +98,19 @@ func (m *Model) resolveEntity(c *MConn, r Ref) uint32 {
 				pool = append(pool, id)
 			}
 		}
+	case "of":
+		// entity I%8 of connection I/8 (what "own" I%8 means to that connection), so that several
+		// requests of a block meet on one entity
+		if oc := m.conn(r.I / 8); oc.Session == s {
+			for _, id := range sortedKeysE(s.Entities) {
+				if s.Entities[id].Owner == oc.PID {
+					pool = append(pool, id)
+				}
+			}
+		}
+		if len(pool) > 0 {
+			return pool[(r.I%8)%len(pool)]
+		}
 	case "gone":
 		for id := range s.IssuedEIDs {
 			if s.Entities[id] == nil {
@@ -109,7 +122,7 @@ func (m *Model) resolveEntity(c *MConn, r Ref) uint32 {
 		pool = sortedKeysE(s.Entities)
 	}
 	if len(pool) == 0 {
-		if r.K == "own" || r.K == "other" || r.K == "any" || r.K == "" {
+		if r.K == "own" || r.K == "other" || r.K == "any" || r.K == "of" || r.K == "" {
 			// fall back to any existing entity, else an unknown id
 			pool = sortedKeysE(s.Entities)
 		}
